@@ -54,6 +54,11 @@ func normalizeNodeURI(nodeURI, nodeID, defaultHost, defaultPort string) (string,
 	if host == "" || isUnspecifiedHost(host) {
 		return "", errors.New("NodeURI is missing host")
 	}
+	if strings.Contains(host, ":") && !isIPv6Literal(host) {
+		// enode://<id>@1:2:3 is read as host "1:2", which is neither an
+		// address nor a name.
+		return "", fmt.Errorf("NodeURI has an invalid host: %q", host)
+	}
 	if n, err := strconv.ParseUint(port, 10, 16); err != nil || n == 0 {
 		// Nobody can connect to that, and the node of a client that is
 		// handed such an address refuses it with an error.
@@ -79,6 +84,15 @@ func isNodeID(s string) bool {
 		}
 	}
 	return true
+}
+
+// isIPv6Literal returns true if host is an IPv6 address, with or without a
+// zone.
+func isIPv6Literal(host string) bool {
+	if i := strings.IndexByte(host, '%'); i >= 0 {
+		host = host[:i]
+	}
+	return net.ParseIP(host) != nil
 }
 
 // isBareIPv6 returns true if s is an IPv6 address as such, without brackets or
